@@ -1031,7 +1031,9 @@ def member_src(C, n, kind):
     body = "        LOG.append((%r, %r))\n        return ('ret', %r)\n" % (ln, C, ln)
     sbody = body
     if kind == "fm":
-        return "    @rpc_method\n    def %s(self, *a, **k):\n%s" % (n, body)
+        # marked methods carry a docstring (as QMI's own do), unmarked ones do not: an override of a documented marked
+        # method by an undocumented unmarked one is the shape that docstring / attribute inheritance helpers act on
+        return "    @rpc_method\n    def %s(self, *a, **k):\n        \"\"\"Documented RPC method %s of %s.\"\"\"\n%s" % (n, n, C, body)
     if kind == "fu":
         return "    def %s(self, *a, **k):\n%s" % (n, body)
     if kind == "sm_in":
@@ -1125,6 +1127,42 @@ def gen_source(seed, n):
         names.append(C)
     src.append("CLASSES = [%s]\n" % ", ".join(names))
     return "".join(src)
+
+
+UNMARKED_KINDS = ("fu", "su", "cu", "lam_u")
+
+
+def source_truth_bucket(ck, gmod):
+    """'declared RPC-callable' is a fact of the SOURCE: for the fixed classes the harness wrote, a member written without
+    rpc_method must not carry the marker once the class exists (the member tables of the model are read from the live
+    classes, so a marker that class creation copies onto an unmarked override would otherwise pass as declared)."""
+    n = 0
+    for C, bases, members, inst in FIXED_SPEC:
+        cls = getattr(gmod, C, None)
+        if cls is None:
+            continue
+        for nm, kind in members:
+            if kind not in UNMARKED_KINDS:
+                continue
+            ln = "_" + C.lstrip("_") + nm if (nm.startswith("__") and not nm.endswith("__")) else nm
+            if ln not in vars(cls):
+                continue
+            n += 1
+            raw = vars(cls)[ln]
+            f = raw.__func__ if isinstance(raw, (staticmethod, classmethod)) else raw
+            if bool(getattr(f, "_rpc_method", False)):
+                accepted = None
+                try:
+                    import qmi.core.rpc as R
+                    accepted = bool(R.is_rpc_method(getattr(cls, ln)))
+                except Exception:  # noqa
+                    pass
+                ck.report("unmarked-in-source-carries-marker:%s" % kind,
+                          "C05 fails on the implementation: %s.%s is written WITHOUT rpc_method in the class body (kind %s, bases %r) "
+                          "but carries the RPC marker once the class is created (is_rpc_method=%r): requests naming it are "
+                          "executed and it is advertised in the interface descriptor" % (C, ln, kind, bases, accepted),
+                          {"class": C, "name": ln, "kind": kind, "bases": bases, "source_truth": True})
+    ck.coverage["source_truth_members_checked"] = n
 
 
 def load_generated(ck_scratch, seed, n):
@@ -1625,6 +1663,7 @@ def run(ck):
     gseed = ck.rng.randrange(1 << 30)
     scratch = ck.scratch_dir()
     gmod, gclasses, gerrs = load_generated(scratch, gseed, ngen)
+    source_truth_bucket(ck, gmod)
     gtabs, gterrs, cache = T.translate(gclasses, cache)
     T.emit(GEN2, gtabs, cache, "generated", False, header="generated classes, seed %d" % gseed)
     ck.coverage["generated_classes"] = {"seed": gseed, "requested": ngen, "defined": len(gclasses),
@@ -1802,6 +1841,15 @@ def replay(rep):
     try:
         cache = {}
         origin = c.get("origin")
+        if c.get("source_truth"):
+            os.makedirs(scratch, exist_ok=True)
+            gmod, classes, _ = load_generated(scratch, 1, 1)
+            cls = getattr(gmod, c["class"])
+            raw = vars(cls)[c["name"]]
+            f = raw.__func__ if isinstance(raw, (staticmethod, classmethod)) else raw
+            marked = bool(getattr(f, "_rpc_method", False))
+            print("%s.%s (written without rpc_method) carries the marker: %r" % (c["class"], c["name"], marked))
+            return 1 if marked else 0
         if origin in ("generated", "history", "routes"):
             os.makedirs(scratch, exist_ok=True)
             gmod, classes, _ = load_generated(scratch, c["gen"]["seed"], c["gen"]["n"])
